@@ -458,6 +458,29 @@ Proof.
   exact (H E s sh i c bij0 src nd u1 sA cA enode0 i0 enode i1 sB sh' bij m sC n'' I3 W S Hh Hc Hp0 Hnd NS0 HA HcA Hen Hi0 HB IB WB SB).
 Qed.
 
+(* `spec_HC_sim_x` at the call site inside handle_pending: the premises are the facts available at that
+   point of the walk (as for spec_HS_readd_x), in particular the run invariant KC of the state in which
+   handle_pending started *)
+Definition spec_HC_sim_y (SC KC : egraph -> Prop) : Prop :=
+  forall E s sh i c bij0 src nd u1 sA cA enode0 i0 enode i1 sB t hit pc1 sh2 pc2 ab s1,
+    inv3 s -> syn_wf s -> mod4_ok s -> SC s -> KC s -> Sound E s ->
+    na_get (hashcons s) sh = Some i -> get_class s i = Ok c -> na_get (c_nodes c) sh = Some (bij0, src) ->
+    apply_slotmap false bij0 sh = Ok nd ->
+    raw_remove_from_class i sh s = Ok (u1, sA) -> get_class sA i = Ok cA ->
+    find_enode sA nd = Ok enode0 -> find_applied_id sA {| aid := i; am := identity (c_slots cA) |} = Ok i0 ->
+    hp_loop 100 src enode0 i0 sA = Ok ((enode, i1), sB) ->
+    inv3 sB -> syn_wf sB -> mod4_ok sB -> SC sB -> Sound E sB ->
+    shape sB enode = Ok t -> lookup_internal sB t = Ok (Some hit) ->
+    pc_from_src_id sB src = Ok pc1 -> shape sB (fst pc1) = Ok sh2 -> pc_from_shape sB (fst sh2) = Ok pc2 ->
+    pc_congruence pc1 pc2 sB = Ok (ab, s1) -> sim E sB (fst ab) (snd ab).
+
+Lemma spec_HC_sim_y_of_x : forall SC KC, spec_HC_sim_x SC -> spec_HC_sim_y SC KC.
+Proof.
+  intros SC KC H E s sh i c bij0 src nd u1 sA cA enode0 i0 enode i1 sB t hit pc1 sh2 pc2 ab s1
+    _ _ _ _ _ _ _ _ _ _ _ _ _ _ _ IB WB MB ScB SB _ _ P1 Hsh P2 HP.
+  exact (H E src sB pc1 sh2 pc2 ab s1 IB WB MB ScB SB P1 Hsh P2 HP).
+Qed.
+
 Section Pending.
   (* two abstract run invariants (see the comment before spec_HSh_red_x); instances: fun _ => True, or
      syn_cov / kids_cov *)
@@ -528,17 +551,21 @@ Section Pending.
 
   (* ASSUMED (semantic): the two invocations built by pc_congruence from the proven-contains of
      src and of the source id stored with the hashcons hit are related *)
-  Hypothesis HC_sim : spec_HC_sim_x SC.
+  Hypothesis HC_sim : spec_HC_sim_y SC KC.
 
+  (* handle_congruence, given the relation of the two invocations built by its pc_congruence *)
   Theorem Sound_handle_congruence : forall E src s pc1 x s', inv3 s -> syn_wf s -> mod4_ok s -> SC s -> Sound E s ->
-    pc_from_src_id s src = Ok pc1 -> handle_congruence pc1 s = Ok (x, s') -> Sound E s'.
+    pc_from_src_id s src = Ok pc1 ->
+    (forall sh pc2 ab s1, shape s (fst pc1) = Ok sh -> pc_from_shape s (fst sh) = Ok pc2 ->
+       pc_congruence pc1 pc2 s = Ok (ab, s1) -> sim E s (fst ab) (snd ab)) ->
+    handle_congruence pc1 s = Ok (x, s') -> Sound E s'.
   Proof.
-    intros E src s pc1 x s' I3 W M Sc S P1 H. unfold handle_congruence in H.
+    intros E src s pc1 x s' I3 W M Sc S P1 HSIM H. unfold handle_congruence in H.
     apply bind_reads_inv in H. destruct H as (sh & Hsh & H).
     apply bind_reads_inv in H. destruct H as (pc2 & P2 & H).
     apply mbind_inv in H. destruct H as (ab & s1 & H1 & H).
     apply mbind_inv in H. destruct H as (b & s2 & H2 & H). inversion H; subst x s2; clear H.
-    pose proof (HC_sim E src s pc1 sh pc2 ab s1 I3 W M Sc S P1 Hsh P2 H1) as SIM.
+    pose proof (HSIM sh pc2 ab s1 Hsh P2 H1) as SIM.
     unfold pc_from_shape in P2. destruct (na_get (hashcons s) (fst sh)) as [i2|]; [|discriminate].
     destruct (get_class s i2) as [c2|]; cbn [bind] in P2; [|discriminate].
     destruct (na_get (c_nodes c2) (fst sh)) as [[bj src2]|]; [|discriminate].
@@ -748,7 +775,10 @@ Section Pending.
     apply bind_reads_inv in H. destruct H as (lk & Hlk & H).
     destruct lk as [hit|].
     - apply bind_reads_inv in H. destruct H as (pc & P & H).
-      exact (Sound_handle_congruence E _ _ _ _ _ IB WB MB ScB SB P H).
+      refine (Sound_handle_congruence E _ _ _ _ _ IB WB MB ScB SB P _ H).
+      intros sh2 pc2 ab s1 Hsh2 P2 HP.
+      exact (HC_sim E s sh i c bij0 src_id nd u1 sA cA enode0 i0 enode i1 sB t hit pc sh2 pc2 ab s1
+               I3 W M Sc Kc S Hh Hc Hp0 Hnd HA HcA Hen Hi0 HB IB WB MB ScB SB Ht Hlk P Hsh2 P2 HP).
     - destruct t as [sh' bij]. pose proof Ht as Ht0.
       apply mbind_inv in H. destruct H as (m & sC & Hm & H).
       change (fill_fresh (values bij) (inv (am i1)) sB = Ok (m, sC)) in Hm. cbv zeta in H.
